@@ -168,6 +168,9 @@ func checkC11(c *Ctx) {
 		}
 		c.Check(ok, "C11.R4.target-reads", "generator."+k, c.posOf(gen, cs.Call.Pos()), "audited: "+why, "file-system read at an unaudited site: generated output may depend on existing target content")
 	}
+	// goimports resolves an un-aliased import of a …/vN path by reading the target directory: the
+	// vN → versionN rename keeps the generated content independent of what is already on disk
+	checkFoldedPatterns(c, "C11.R5.versioned-packages", gen)
 }
 
 func checkConfigureWiring(c *Ctx, gen, cmd *packages.Package) {
